@@ -22,6 +22,10 @@ type c17NativeSite struct {
 	path  []string
 	what  string
 	apply func()
+	// becomesAbsent (set for sites below a treat-empty-as-default property): after apply, has the corruption turned
+	// the field into its zero value? Then the property is absent, which is another kind of change (a presence rule of
+	// a sibling may fire) and not the corruption of one element.
+	becomesAbsent func() bool
 }
 
 func c17FieldFor(t reflect.Type, prop string) (reflect.StructField, bool) {
@@ -152,7 +156,16 @@ func c17NativeSites(r *wk.Rand, s *gen.Shape, v reflect.Value, env *gen.Env, pat
 			if p.EmptyDef && fv.IsZero() {
 				continue
 			}
-			out = append(out, c17NativeSites(r, p.T, fv, env, cp(path, p.Name), depth+1)...)
+			sub := c17NativeSites(r, p.T, fv, env, cp(path, p.Name), depth+1)
+			if p.EmptyDef {
+				field := fv
+				for i := range sub {
+					if sub[i].becomesAbsent == nil {
+						sub[i].becomesAbsent = func() bool { return field.IsZero() }
+					}
+				}
+			}
+			out = append(out, sub...)
 		}
 		return out
 	case gen.KOneOfStr, gen.KOneOfInt:
@@ -222,6 +235,10 @@ func c17StructCase(c *wk.Ctx, r *wk.Rand, idx int64) {
 		}
 		site := sites[si]
 		site.apply()
+		if site.becomesAbsent != nil && site.becomesAbsent() {
+			c.Count("skipped:corruption-empties-a-treat-empty-as-default-field")
+			continue
+		}
 		broken := root.Interface()
 		if ref.Check(shape, ref.Normalize(shape, broken, env), env) == "" {
 			c.Count("skipped:not-must-reject")
